@@ -20,11 +20,14 @@ class CyclicReference(LeafNode):
     def __init__(self, obj):
         super().__init__(IdentityHash(obj))
 
+    def copy_from(self, children):
+        return self.__class__(self.object.obj)
+
     def __hash__(self):
-        return id(self.object)
+        return hash(self.object)
 
     def __eq__(self, other):
-        return isinstance(other, CyclicReference) and other.object is self.object
+        return isinstance(other, CyclicReference) and other.object == self.object
 
 
 class Builder(ABC):
